@@ -22,6 +22,14 @@ var (
 	realErr  error
 )
 
+func TestMain(m *testing.M) {
+	code := m.Run()
+	if realBin != "" {
+		_ = os.RemoveAll(filepath.Dir(realBin))
+	}
+	os.Exit(code)
+}
+
 // realProtocGenGo builds the REAL protoc-gen-go from the module cache (google.golang.org/protobuf/cmd/protoc-gen-go).
 func realProtocGenGo(t *testing.T) string {
 	realOnce.Do(func() {
@@ -114,7 +122,7 @@ func api(t *testing.T, src string) map[string]string {
 
 // realOnly lists what the real generator has and the stand-in deliberately lacks.
 func realOnly(k string) bool {
-	for _, s := range []string{".ProtoReflect", ".Descriptor", ".EnumDescriptor", ".Type", ".Number", ".UnmarshalJSON"} {
+	for _, s := range []string{".ProtoReflect", ".Type", ".Number", ".UnmarshalJSON"} {
 		if strings.HasPrefix(k, "method ") && strings.HasSuffix(k, s) {
 			return true
 		}
@@ -150,7 +158,7 @@ func compareWithReal(t *testing.T, name, src string) {
 		m, mok := mine[k]
 		r, rok := real[k]
 		switch {
-		case !mok && realOnly(k):
+		case !mok && (realOnly(k) || strings.Contains(r, "protoreflect.")):
 		case !mok && strings.HasPrefix(k, "field ") && strings.Contains(r, "protoimpl."):
 		case !mok:
 			t.Errorf("%s: real protoc-gen-go declares %q (%s), the stand-in does not", name, k, r)
